@@ -63,6 +63,12 @@ def handle (st : St) (n : Nat) (line : String) : Result := Id.run do
         let f2 := fail f.st n "C17" s!"configured log {(g "log").getD "?"} has a feeder type but is never fed after start-up: the feeder list and the witness map do not describe the same logs"
         return { st := f2.st, out := f.out ++ f2.out }
       return f
+  | "HF" :: rest =>
+    let g := field rest
+    let res := (g "res").getD "?"
+    let st := st.bump s!"hostile.{(g "feeder").getD "?"}.{res}"
+    if res == "ok" || res == "err" then return { st := { st with nOK := st.nOK + 1 }, out := [s!"OK {n}"] }
+    else return fail st n "C19" s!"{(g "feeder").getD "?"} feeder, log answering {(g "case").getD "?"}: the feed cycle ended with {res} instead of a result or an error"
   | "OMF" :: rest =>
     let g := field rest
     let w := (g "witnessed").getD "?"; let s := (g "served").getD "!"
